@@ -16,6 +16,11 @@ CLAIMED = {
             "Generated-input search over code descriptions (every histogram header form, integer configs, clusterings, LZ77 parameters) and symbol sequences; the decoder must return exactly the encoded sequence, consume exactly the written bits and accept the final ANS state; wrong final states and cluster holes must be rejected.",
             "Trusted: jxlref::entropy (encoder written from ISO/IEC 18181-1 Annex C / RFC 7932). A mistake shared by my encoder and the decoder would go unnoticed; the alias table, hybrid-integer and LZ77 distance maps are written from the definition, not from the decoder's code.",
             "DESIGN.md §4 C04"),
+    "C05": ("exploration",
+            "model-based PBT: generated multi-frame images (blend modes, crops, slots, patches, animation) rendered in generated keyframe order vs an independent reference compositor",
+            "Generated-input search over frame sequences; every rendered keyframe, in any request order, must equal the canvas computed by the reference compositor from the decoded-by-construction frame contents (tolerance 2e-6 relative to max(1,|v|), f32 model using the definition's formulas).",
+            "Trusted: jxlref::models::compositor (my reading of the blending and patch rules); regions where I could not pin the definition down are excluded by construction and listed in the evidence assumptions; one genuine patch-blending defect is a known finding.",
+            "DESIGN.md §4 C05"),
     "C09": ("exploration",
             "metamorphic PBT: generated valid files x generated chunkings (structure-boundary biased) fed through the incremental API vs whole-buffer read; field-wise and sample-wise equality",
             "Generated-input search over valid files (bare/container, split jxlp, aux boxes, multi-section frames, permuted TOCs) and over chunkings biased to structure boundaries; the incremental decoder must report exactly what the one-shot decoder reports, including bit-identical samples.",
@@ -46,6 +51,11 @@ CLAIMED = {
             "Generated-input search: all output buffer kinds must describe the same picture, with the reported oriented dimensions, the documented channel order, correct integer rounding, chunked stream writes equal to one-shot writes, and crop regions equal to the rectangle of the full oriented picture.",
             "Trusted: my transcription of the EXIF orientation semantics (orient_map) and the defined sample-to-float conversion. CMYK/black ordering and spot-colour mixing are not generated (stated in evidence).",
             "DESIGN.md §4 C15"),
+    "C16": ("exploration",
+            "differential PBT against an f64 reference of the 27 inverse varblock transforms written from their definitions; generated coefficient blocks / LF inputs / buffer placements; generic vs arch path; table-free invariants (Gram matrix, Parseval, box averages)",
+            "Generated-input search plus systematic impulse sweeps: both the generic and the CPU-selected entry point (exposed by a cfg(jxl_oxide_verif) re-export) must match the double-precision definition within per-family norm-relative tolerances frozen at >= 4x the worst observed error, must agree with each other within half of that, and must not write outside the processed varblocks.",
+            "Trusted: jxlref::models::idct (independent f64 model, AFV basis transcribed from the format's table and checked for orthonormality). Only the x86-64 SSE2/SSE4.1 paths exist on this host. Coefficient transposition for tall blocks happens before this entry point and is not covered here.",
+            "DESIGN.md §4 C16"),
     "C18": ("exploration",
             "round-trip PBT: independent ICC-stream *encoder* with generated command segmentation (header prediction, tag shortcuts, raw/shuffle/predicted runs) over generated profiles -> read_icc/decode_icc and JxlImage::original_icc byte equality; 18 constructed negative cases",
             "Generated-input search over profiles (structured and noise, 0..300 KiB) and over encodings of each profile; the decoder must return the profile byte for byte and stop at the written bit; inconsistent encodings (by construction, confirmed by a reference interpreter) must be rejected.",
